@@ -412,6 +412,34 @@ let op_walk (rest : string) : string =
      with Exit -> ());
     Buffer.contents b
 
+(* walk_all <fen> | toks : the observers legal / san / classify / fen on the position represented after EVERY step of a make /
+   unmake / null-move script (the rep model walks, rep_abs reads the position off it) *)
+let rec op_walk_obs ?(only_after_do = false) (rest : string) (obs : M.position -> string) : string = op_walk_rep ~only_after_do rest (fun s -> obs (M.rep_abs s))
+and op_walk_rep ?(only_after_do = false) (rest : string) (obs : M.rep -> string) : string =
+  let (fen, toks) = split_game rest in
+  match parse_fen fen with
+  | None -> "BAD-FEN"
+  | Some p0 ->
+    let s = ref (M.rep_of_position zt p0) in
+    let st = ref [] in
+    let b = Buffer.create 1024 in
+    Buffer.add_string b (obs !s);
+    (try List.iter (fun t ->
+         (match t with
+          | "u" | "un" ->
+            (match !st with
+             | [] -> Buffer.add_string b " ; EMPTY"; raise Exit
+             | (m, mi) :: r -> st := r;
+               s := if t = "u" then M.undo_move zt !s m mi else M.undo_null_move zt !s mi)
+          | "n" -> let (s', mi) = M.do_null_move zt !s in s := s'; st := (M.N0, mi) :: !st
+          | _ ->
+            (match M.rep_parse_uci !s (cstr t) with
+             | None -> Buffer.add_string b " ; BAD-MOVE"; raise Exit
+             | Some m -> let (s', mi) = M.do_move zt !s m in s := s'; st := (m, mi) :: !st));
+         Buffer.add_string b " ; "; Buffer.add_string b (if only_after_do && (t = "u" || t = "un") then "-" else obs !s)) toks
+     with Exit -> ());
+    Buffer.contents b
+
 (* ---------- C04 keys (model: incremental key of the rep, key from scratch) ---------- *)
 let fen4 (p : M.position) : string =
   let f = ostr (M.fen_print p) in
@@ -806,6 +834,14 @@ let dispatch (line : string) : string =
      | "g_classify_alg" -> run_game (rest_after line 1) obs_classify_alg
      | "g_preds" -> run_preds_game (rest_after line 1)
      | "walkgen" -> op_walkgen args line
+     | "walk_preds" | "walk_preds_do" -> op_walk_rep ~only_after_do:(op = "walk_preds_do") (rest_after line 1) (fun s ->
+         let p = M.rep_abs s in
+         b01 (M.in_check p.M.brd p.M.stm) ^ b01 (M.checkmate p) ^ b01 (M.stalemate p) ^ b01 (M.is_repeated s)
+         ^ b01 (M.threefold s) ^ b01 (M.rule50 s) ^ b01 (not (M.enough_material s)))
+     | "walk_san" | "walk_san_do" -> op_walk_obs ~only_after_do:(op = "walk_san_do") (rest_after line 1) obs_san
+     | "walk_legal" | "walk_legal_do" -> op_walk_obs ~only_after_do:(op = "walk_legal_do") (rest_after line 1) obs_legal
+     | "walk_classify" | "walk_classify_do" -> op_walk_obs ~only_after_do:(op = "walk_classify_do") (rest_after line 1) obs_classify
+     | "walk_all" -> op_walk_obs (rest_after line 1) (fun p -> obs_legal p ^ " S " ^ obs_san p ^ " C " ^ obs_classify p ^ " F " ^ obs_fen p)
      | _ -> "UNKNOWN-OP " ^ op)
 
 let () =
